@@ -344,9 +344,10 @@ def update_worker(job):
     changed between them, vs. a plain call with the second call's loads"""
     spec = job["spec"]
     H.install(numba_pyfunc=bool(job.get("numba")))
-    kw_upd = dict(mode="hydraulics", use_numba=bool(job.get("numba")), only_update_hydraulic_matrix=True,
+    mode = job.get("pfmode") or "hydraulics"
+    kw_upd = dict(mode=mode, use_numba=bool(job.get("numba")), only_update_hydraulic_matrix=True,
                   reuse_internal_data=True)
-    kw_plain = dict(mode="hydraulics", use_numba=bool(job.get("numba")))
+    kw_plain = dict(mode=mode, use_numba=bool(job.get("numba")))
     ra = equiv.RunSpec(spec, kw_upd, pre_calls=[dict(kw_upd)], relabel_loads_between=True)
     rb = equiv.RunSpec(spec, kw_plain)
     return equiv.equiv_worker(job, ra, rb, fp_prefix="C07/update", replay_kind="update")
@@ -359,7 +360,8 @@ def replay_update(rs):
     first = {k[:-len("@first")]: v for k, v in vals.items() if k.endswith("@first")}
     second = {k: v for k, v in vals.items() if not k.endswith("@first")}
     numba = bool(rs.get("numba"))
-    kw = dict(mode="hydraulics", use_numba=numba, tol_p=1e-9, tol_m=1e-9, tol_res=1e-9, max_iter_hyd=200)
+    kw = dict(mode=rs.get("pfmode") or "hydraulics", use_numba=numba, tol_p=1e-9, tol_m=1e-9, tol_res=1e-7, tol_T=1e-8,
+              max_iter_hyd=200, max_iter_therm=200, max_iter_bidirect=200)
     net, names = nets.build(spec, nets.concrete_valuer(dict(second, **first)))
     ok1, e1 = concrete_pipeflow(net, only_update_hydraulic_matrix=True, reuse_internal_data=True, **kw)
     # change the loads, keep everything else
@@ -412,6 +414,9 @@ def jobs(tier, seed):
         for numba in (False, True):
             out.append({"name": "update/%s/%s" % (s["name"], "numba" if numba else "numpy"), "kind": "update", "spec": s,
                         "numba": numba})
+    # the option in calculations with a thermal stage (the thermal matrix has another structure than the hydraulic one)
+    for s, m in [(catalog.w_heat_line(), "sequential"), (catalog.w_circ_loop(), "sequential"), (catalog.w_circ_mass(), "bidirectional")]:
+        out.append({"name": "update/%s/%s" % (s["name"], m), "kind": "update", "spec": s, "numba": False, "pfmode": m})
     return out
 
 
